@@ -241,6 +241,9 @@ class CorrFunc(
             return NotImplemented
 
         self.is_compatible(other, require=True)
+        if self.to_dict().keys() != other.to_dict().keys():
+            # otherwise pair counts of 'other' are dropped silently or None is added
+            raise ValueError("both operands must contain the same kinds of pair counts")
         kwargs = {
             attr: counts + getattr(other, attr)
             for attr, counts in self.to_dict().items()
